@@ -334,4 +334,106 @@ def resolveArguments (rs : Regions) (externs : List (String × Signature)) (name
   | none => .err .noMatchingExtern
   | some (_, s) => resolveToSignature rs s args
 
+
+/-! ### The PRAGMA EXTERN route (`ExternPragmaMap::insert`, `ExternSignature::try_from(Pragma)`,
+`ExternSignatureMap::try_from(ExternPragmaMap)`; instruction/extern_call.rs:281-404) -/
+
+inductive PragmaArg where
+  | ident (s : String)
+  | int (n : Nat)
+  deriving DecidableEq, Repr
+
+/-- a `PRAGMA`: its name, arguments and data; the data string is represented by what the lexer makes of it
+(`none` = the lexer rejects it) -/
+structure ExtPragma where
+  pname : String
+  args : List PragmaArg
+  data : Option (Option (List Token))
+  deriving DecidableEq, Repr
+
+inductive MapErr where
+  | notExtern | noName | invalidArgs | noSignature | lex | sig (e : SigErr) | name
+  deriving DecidableEq, Repr
+
+/-- the key `ExternPragmaMap::insert` files a pragma under: the first argument if it is an identifier -/
+def pragmaKey (p : ExtPragma) : Option String :=
+  match p.args with
+  | .ident n :: _ => some n
+  | _ => none
+
+/-- `IndexMap::insert`: an existing key keeps its position and gets the new value -/
+def mapInsert (m : List (Option String × ExtPragma)) (k : Option String) (p : ExtPragma) :
+    List (Option String × ExtPragma) :=
+  match m with
+  | [] => [(k, p)]
+  | (k', p') :: rest => if k' = k then (k, p) :: rest else (k', p') :: mapInsert rest k p
+
+/-- `Program::add_instruction` for every pragma in turn: only pragmas named exactly `EXTERN` enter the map -/
+def pragmaMap (ps : List ExtPragma) : List (Option String × ExtPragma) :=
+  ps.foldl (fun m p => if p.pname = "EXTERN" then mapInsert m (pragmaKey p) p else m) []
+
+/-- `ExternSignature::try_from(Pragma)` -/
+def sigOfPragma (isUser : String → Bool) (p : ExtPragma) : Except MapErr Signature :=
+  if p.pname ≠ "EXTERN" then .error .notExtern
+  else match p.args with
+    | [] => .error .noName
+    | .int _ :: _ => .error .noName
+    | .ident _ :: _ :: _ => .error .invalidArgs
+    | [.ident _] =>
+      match p.data with
+      | none => .error .noSignature
+      | some none => .error .lex
+      | some (some toks) =>
+        match sigFromTokens isUser toks with
+        | .ok s => .ok s
+        | .error .name => .error .name
+        | .error e => .error (.sig e)
+
+/-- `ExternSignatureMap::try_from(ExternPragmaMap)`: entries in map order, the first failure is returned
+together with the key of the offending pragma -/
+def convertMap (isUser : String → Bool) : List (Option String × ExtPragma) →
+    Except (Option String × MapErr) (List (String × Signature))
+  | [] => .ok []
+  | (none, _) :: _ => .error (none, .noName)
+  | (some n, p) :: rest =>
+    if !isUser n then .error (some n, .name)
+    else match sigOfPragma isUser p with
+      | .error e => .error (some n, e)
+      | .ok s =>
+        match convertMap isUser rest with
+        | .ok l => .ok ((n, s) :: l)
+        | .error e => .error e
+
+/-- `Program::try_extern_signature_map_from_pragma_map` after adding the pragmas in order -/
+def externMap (isUser : String → Bool) (ps : List ExtPragma) :
+    Except (Option String × MapErr) (List (String × Signature)) :=
+  convertMap isUser (pragmaMap ps)
+
+/-! ### `Call::default_memory_accesses` (instruction/extern_call.rs:1004): which regions a CALL reads / writes -/
+
+def Arg.region : Arg → Option String
+  | .identifier n => some n
+  | .memRef n _ => some n
+  | .immediate _ => none
+
+/-- reads and writes (as lists; the implementation returns sets): the return argument is read and written;
+every further argument is read, and written if its parameter is mutable; arguments beyond the signature are
+still read -/
+def accessLoop : List Arg → List ExtParam → List String × List String
+  | [], _ => ([], [])
+  | a :: as, ps =>
+    let (r, w) := accessLoop as ps.tail
+    let mutable := match ps.head? with | some p => p.mutable | none => false
+    match a.region with
+    | none => (r, w)
+    | some n => (n :: r, if mutable then n :: w else w)
+
+def callAccesses (s : Signature) (args : List Arg) : List String × List String :=
+  match s.ret, args with
+  | some _, a :: as =>
+    let (r, w) := accessLoop as s.params
+    (match a.region with | some n => (n :: r, n :: w) | none => (r, w))
+  | some _, [] => ([], [])
+  | none, as => accessLoop as s.params
+
 end QV.C31
